@@ -106,6 +106,23 @@ fn rename_self_outside_markers(t: &str) -> String {
     out
 }
 
+/// `Box::<T>::default` => Some("T")
+fn box_default_type(f: &Expr) -> Option<String> {
+    if let Expr::Path(p) = f {
+        let segs: Vec<&syn::PathSegment> = p.path.segments.iter().collect();
+        if segs.len() == 2 && segs[0].ident == "Box" && segs[1].ident == "default" {
+            if let syn::PathArguments::AngleBracketed(ab) = &segs[0].arguments {
+                if ab.args.len() == 1 {
+                    if let syn::GenericArgument::Type(Type::Path(tp)) = &ab.args[0] {
+                        return tp.path.get_ident().map(|i| i.to_string());
+                    }
+                }
+            }
+        }
+    }
+    None
+}
+
 fn norm(s: &str) -> String {
     let mut out = String::new();
     let mut last_space = false;
@@ -1399,6 +1416,12 @@ impl<'r, 'a, 'ast> Visit<'ast> for V<'r, 'a> {
 
     fn visit_expr(&mut self, e: &'ast Expr) {
         match e {
+            Expr::Call(c) if c.args.is_empty() && box_default_type(&c.func).is_some() => {
+                // R27: `Box::<T>::default()` is `Box::new(T::default())` (std: `impl<T: Default> Default for Box<T>`)
+                self.r.rule("R27:box-default");
+                let ty = box_default_type(&c.func).unwrap();
+                self.replace(e.span(), format!("Box::new({}::default())", ty));
+            }
             Expr::Struct(st) if !self.r.fc.opaque_inits.is_empty() => {
                 // R10: an opaque field initialised with `None`
                 for fv in st.fields.iter() {
@@ -2289,7 +2312,50 @@ fn dispatch_main(args: &[String]) {
             tables.push(json!({"function": f.sig.ident.to_string(), "trait": ty, "scrutinee": scrut, "arms": arms}));
         }
     }
-    std::fs::write(&args[3], serde_json::to_string_pretty(&json!({"tables": tables})).unwrap()).expect("write");
+    // encoder tables: a function whose last expression is `match X { .. }`: per arm, every `new_for_*` function called and every
+    // `Box::<Type>::default()` type named in the arm
+    let mut enc_tables = vec![];
+    for it in &parsed.items {
+        let f = match it { Item::Fn(f) => f, _ => continue };
+        let m = match f.block.stmts.last() { Some(Stmt::Expr(Expr::Match(m), None)) => m, _ => continue };
+        let scrut = norm(&text[rng(m.expr.span()).0..rng(m.expr.span()).1]);
+        let mut arms = vec![];
+        for arm in &m.arms {
+            let pat = norm(&text[rng(arm.pat.span()).0..rng(arm.pat.span()).1]);
+            let guard = arm.guard.as_ref().map(|g| norm(&text[rng(g.1.span()).0..rng(g.1.span()).1]));
+            let mut c = AllCtors { found: vec![] };
+            c.visit_expr(&arm.body);
+            let line = text[..rng(arm.pat.span()).0].matches('\n').count() + 1;
+            arms.push(json!({"pattern": pat, "guard": guard, "ctors": c.found, "line": line}));
+        }
+        enc_tables.push(json!({"function": f.sig.ident.to_string(), "scrutinee": scrut, "arms": arms}));
+    }
+    std::fs::write(&args[3], serde_json::to_string_pretty(&json!({"tables": tables, "tail_match_tables": enc_tables})).unwrap()).expect("write");
+}
+
+struct AllCtors { found: Vec<String> }
+impl<'ast> Visit<'ast> for AllCtors {
+    fn visit_expr_call(&mut self, c: &'ast syn::ExprCall) {
+        if let Expr::Path(p) = &*c.func {
+            let segs: Vec<String> = p.path.segments.iter().map(|s| s.ident.to_string()).collect();
+            let last = segs.last().cloned().unwrap_or_default();
+            if last.starts_with("new_for_") || last.starts_with("new_default_") {
+                self.found.push(last);
+            } else if last == "default" && segs.len() >= 2 && segs[segs.len() - 2] == "Box" {
+                // `Box::<Type>::default()`: the type argument of Box
+                if let Some(seg) = p.path.segments.iter().rev().nth(1) {
+                    if let syn::PathArguments::AngleBracketed(ab) = &seg.arguments {
+                        for a in ab.args.iter() {
+                            if let syn::GenericArgument::Type(Type::Path(tp)) = a {
+                                if let Some(l) = tp.path.segments.last() { self.found.push(format!("{}::default", l.ident)); }
+                            }
+                        }
+                    }
+                }
+            }
+        }
+        visit::visit_expr_call(self, c);
+    }
 }
 
 struct FirstCtor { found: Option<String> }
@@ -2675,7 +2741,15 @@ fn main() {
                         }
                         t.push_str(&format!("({}) {};\n", parts.join(", "), wh));
                     }
-                    Fields::Unit => t.push_str(&format!(" {};\n", wh)),
+                    Fields::Unit => {
+                        t.push_str(&format!(" {};\n", wh));
+                        // R27: `#[derive(Default)]` on a unit struct, written out (derive attributes are dropped by the extraction)
+                        let derives_default = s.attrs.iter().any(|a| a.path().is_ident("derive") && text[rng(a.span()).0..rng(a.span()).1].contains("Default"));
+                        if derives_default && s.generics.params.is_empty() {
+                            r.rule("R27:derive-default-unit-struct");
+                            t.push_str(&format!("impl Default for {id} {{ fn default() -> (res: {id}) {{ {id} }} }}\n", id = s.ident));
+                        }
+                    }
                 }
                 let derives: Vec<String> = s
                     .attrs
